@@ -289,8 +289,8 @@ func buildStreams(rng *rand.Rand, thorough bool) []*stream {
 	nMixed, nBig := 5, 1
 	pipeLen := map[wire.Proto]int{wire.RESP: 300, wire.Telnet: 500, wire.Native: 300}
 	if thorough {
-		nMixed, nBig = 40, 2
-		pipeLen = map[wire.Proto]int{wire.RESP: 1500, wire.Telnet: 3000, wire.Native: 1500}
+		nMixed, nBig = 24, 1
+		pipeLen = map[wire.Proto]int{wire.RESP: 1000, wire.Telnet: 3000, wire.Native: 1000}
 	}
 	for _, p := range []wire.Proto{wire.RESP, wire.Telnet, wire.Native} {
 		// mixed small streams, 5..60 commands
@@ -331,7 +331,7 @@ func buildStreams(rng *rand.Rand, thorough bool) []*stream {
 			out = append(out, s)
 		}
 		// a command boundary exactly at offset 0xFFFF (and the next command straddling it)
-		if thorough || p == wire.RESP {
+		if thorough {
 			s := &stream{ID: fmt.Sprintf("%s-edge", p), Kind: "edge", Proto: p}
 			s.add("FLUSHDB")
 			s.add("PING")
